@@ -187,9 +187,27 @@ static void select_dev(enum DeviceKind kind, int dev, struct DeviceIdentifier* i
 
 static struct runtime* rt(void) { return containerof(g_rt, struct runtime, handle); }
 
+// devices that belong to a stream the client had configured when acquire_start was called, and every device's start count then
+static unsigned g_starts_at_start[MOCK_NDEV];
+static int g_dev_in_use[MOCK_NDEV];
+static int g_applied_cam[2] = { -1, -1 }, g_applied_sto[2] = { -1, -1 }; // what the last acquire_configure was given
+static int g_have_start_snapshot;
+
+// C07 / C08: an acquisition starts the devices of the streams that are configured *now*, nothing left over from an earlier
+// configuration (a stream that the last acquire_configure switched off stays off)
+static void check_no_leftover_stream(const char* how)
+{
+    if (!g_have_start_snapshot) return;
+    for (int d = 0; d < MOCK_NDEV; ++d)
+        if (!g_dev_in_use[d] && mock_dev(d)->starts != g_starts_at_start[d])
+            oracle("leftover-device-%d-started-for-a-stream-that-is-switched-off (%s)", d, how);
+    g_have_start_snapshot = 0;
+}
+
 // C04 / C07 / C09 / C10 oracle at the end of an acquisition
 static void check_acquisition(const char* how)
 {
+    check_no_leftover_stream(how);
     for (int s = 0; s < 2; ++s) {
         int cam = g_cfg_cam[s], sto = g_cfg_sto[s];
         if (cam < 0 || sto < 0) continue;
@@ -368,6 +386,7 @@ static void exec_client(const char* op)
         if (g_cfg_cam[s] >= 0) g_cam_type[g_cfg_cam[s]] = (int)pv->camera.settings.pixel_type;
     } else if (!strcmp(op, "configure")) {
         if (acquire_get_state(g_rt) == DeviceState_Running) { g_cfg_while_running = 1; g_run_n[0] = g_cfg_n[0]; g_run_n[1] = g_cfg_n[1]; }
+        for (int s = 0; s < 2; ++s) { g_applied_cam[s] = g_cfg_cam[s]; g_applied_sto[s] = g_cfg_sto[s]; }
         enum AcquireStatusCode rc = acquire_configure(g_rt, &g_props);
         printf("API configure -> %s valid=%d state=%s\n", rc == AcquireStatus_Ok ? "ok" : "err", (int)rt()->valid_video_streams,
                device_state_as_string(acquire_get_state(g_rt)));
@@ -382,6 +401,12 @@ static void exec_client(const char* op)
                     g_avg_of_sto[g_cfg_sto[s]] = g_cfg_avg[s];
                     g_run_n[s] = g_cfg_n[s];
                 }
+        if (!was_running) {
+            for (int d = 0; d < MOCK_NDEV; ++d) { g_starts_at_start[d] = mock_dev(d)->starts; g_dev_in_use[d] = 0; }
+            for (int s = 0; s < 2; ++s)
+                if (g_applied_sto[s] >= 0 && g_applied_cam[s] >= 0) g_dev_in_use[g_applied_sto[s]] = g_dev_in_use[g_applied_cam[s]] = 1;
+            g_have_start_snapshot = 1;
+        }
         enum AcquireStatusCode rc = acquire_start(g_rt);
         if (rc == AcquireStatus_Ok) g_acq_open = 1;
         printf("API start -> %s\n", rc == AcquireStatus_Ok ? "ok" : "err");
